@@ -55,7 +55,7 @@ theorem needed_head (g : Graph P V) (op : Op P V) (rest : List (Op P V)) (n : Na
   left; simp only [List.flatMap_cons, List.mem_append]; left; exact h
 
 /-- For a name the graph knows, "needed by `op`" and "dependency of `op`" coincide. -/
-theorem mem_deps_of_needed (g : Graph P V) (op : Op P V) (n : Nat) (hn : n ∈ g.defs)
+theorem mem_deps_of_needed (g : Graph P V) (op : Op P V) (n : Nat) (hn : n ∈ g.defs ∨ n ∈ g.caps)
     (h : n ∈ op.directInputs ∨ n ∈ op.capNames) : n ∈ deps g op := by
   unfold deps
   by_cases hi : n ∈ op.directInputs
@@ -65,7 +65,7 @@ theorem mem_deps_of_needed (g : Graph P V) (op : Op P V) (n : Nat) (hn : n ∈ g
     · apply List.mem_append_right
       rw [List.mem_filter]
       refine ⟨h, ?_⟩
-      simp [hn, hi]
+      rcases hn with hn | hn <;> simp [hn, hi]
 
 theorem valueDefs_sub_defs (g : Graph P V) (n : Nat) (h : n ∈ g.valueDefs) : n ∈ g.defs := by
   simp only [Graph.valueDefs, Graph.defs, List.mem_append] at h ⊢
@@ -77,22 +77,28 @@ theorem isValueNode_of_valueDefs (g : Graph P V) (n : Nat) (h : n ∈ g.valueDef
     isValueNode g n = true := by simp [isValueNode, h]
 
 /-- A value node whose count dropped to zero is not needed any more. -/
-theorem not_needed_of_rc_zero (g : Graph P V) (rest : List (Op P V)) (st : St V)
-    (hinv : RcInv g rest st) (n : Nat) (hv : n ∈ g.valueDefs) (hz : st.rc n = 0) :
+theorem not_needed_of_rc_zero' (g : Graph P V) (rest : List (Op P V)) (st : St V)
+    (hinv : RcInv g rest st) (n : Nat) (hval : isValueNode g n = true)
+    (hres : n ∈ g.defs ∨ n ∈ g.caps) (hz : st.rc n = 0) :
     ¬ Needed g rest n := by
-  have h := hinv n (isValueNode_of_valueDefs g n hv)
+  have h := hinv n hval
   rw [hz] at h
-  simp [remaining, isValueNode_of_valueDefs g n hv] at h
+  simp [remaining, hval] at h
   intro hn
   rcases hn with hn | hn
   · obtain ⟨op, hop, hmem⟩ := List.mem_flatMap.mp hn
     have : n ∈ rest.flatMap (deps g) :=
-      List.mem_flatMap.mpr ⟨op, hop, mem_deps_of_needed g op n (valueDefs_sub_defs g n hv)
-        (List.mem_append.mp hmem)⟩
+      List.mem_flatMap.mpr ⟨op, hop, mem_deps_of_needed g op n hres (List.mem_append.mp hmem)⟩
     have h1 : (rest.flatMap (deps g)).count n = 0 := by omega
     exact (List.count_eq_zero.mp h1) this
   · have h2 : g.outputs.count n = 0 := by omega
     exact (List.count_eq_zero.mp h2) hn
+
+theorem not_needed_of_rc_zero (g : Graph P V) (rest : List (Op P V)) (st : St V)
+    (hinv : RcInv g rest st) (n : Nat) (hv : n ∈ g.valueDefs) (hz : st.rc n = 0) :
+    ¬ Needed g rest n :=
+  not_needed_of_rc_zero' g rest st hinv n (isValueNode_of_valueDefs g n hv)
+    (Or.inl (valueDefs_sub_defs g n hv)) hz
 
 theorem rcInv_of_rc_eq (g : Graph P V) (op : Op P V) (rest : List (Op P V)) (st st' : St V)
     (hinv : RcInv g (op :: rest) st) (h : ∀ n, st'.rc n = st.rc n - (deps g op).count n) :
@@ -105,15 +111,21 @@ theorem rcInv_of_rc_eq (g : Graph P V) (op : Op P V) (rest : List (Op P V)) (st 
 /-! ## the invariant -/
 
 /-- Facts that stay fixed during one `run_plan` invocation. -/
-structure Ctx (g : Graph P V) (views : Env V) (E : List (Frame V)) (σp : Env V) : Prop where
+structure Ctx (g : Graph P V) (views : Env V) (σp : Env V) : Prop where
   nodup : g.defs.Nodup
   vkeys : ∀ n, look views n ≠ none → n ∈ g.inputs ++ g.consts.map (·.1)
-  shadowE : ∀ n, n ∈ g.allDefs → getInput E n = none
   shadowσ : ∀ n, n ∈ g.allDefs → look σp n = none
 
-structure Inv (g : Graph P V) (views : Env V) (E : List (Frame V)) (σp : Env V)
+/-- Every by-value capture of the innermost environment is stored under a node its graph defines
+and is not also captured by reference (so `get_input` returns it). -/
+def headOK : List (Frame V) → Prop
+  | [] => True
+  | f :: _ => ∀ n, look f.byVal n ≠ none → f.locals.contains n = true ∧ look f.tempRef n = none
+
+structure Inv (g : Graph P V) (views : Env V) (σp : Env V)
     (rest : List (Op P V)) (st : St V) (b : Env V) : Prop where
-  env : st.env = E
+  shadowE : ∀ n, n ∈ g.allDefs → getInput st.env n = none
+  headok : headOK st.env
   rc : RcInv g rest st
   keys : ∀ n, look st.temp n ≠ none → n ∈ g.valueDefs
   bkeys : ∀ n, look b n ≠ none → n ∈ g.defs
@@ -130,8 +142,8 @@ theorem outs_valueDefs (g : Graph P V) (op : Op P V) (hop : op ∈ g.ops) (n : N
   right
   exact List.mem_flatMap.mpr ⟨op, hop, h⟩
 
-theorem outs_not_views (g : Graph P V) (views : Env V) (E : List (Frame V)) (σp : Env V)
-    (ctx : Ctx g views E σp) (op : Op P V) (hop : op ∈ g.ops) (n : Nat) (h : n ∈ op.outs) :
+theorem outs_not_views (g : Graph P V) (views : Env V) (σp : Env V)
+    (ctx : Ctx g views σp) (op : Op P V) (hop : op ∈ g.ops) (n : Nat) (h : n ∈ op.outs) :
     look views n = none := by
   cases hv : look views n with
   | none => rfl
@@ -145,20 +157,23 @@ theorem outs_not_views (g : Graph P V) (views : Env V) (E : List (Frame V)) (σp
 
 /-- Common tail of every step: store the outputs, release what is no longer needed. `st1` is the
 state after by-value extraction (or `st` itself). -/
-theorem inv_finish (g : Graph P V) (views : Env V) (E : List (Frame V)) (σp : Env V)
-    (ctx : Ctx g views E σp) (op : Op P V) (hop : op ∈ g.ops) (rest : List (Op P V))
+theorem inv_finish (g : Graph P V) (views : Env V) (σp : Env V)
+    (ctx : Ctx g views σp) (op : Op P V) (hop : op ∈ g.ops) (rest : List (Op P V))
     (st st1 : St V) (b : Env V) (r : List V)
-    (inv : Inv g views E σp (op :: rest) st b)
-    (henv : st1.env = st.env) (hrc : st1.rc = st.rc)
+    (inv : Inv g views σp (op :: rest) st b)
+    (henv1 : ∀ m, getInput st1.env m = getInput st.env m ∨
+      (st.rc m = 1 ∧ m ∈ deps g op ∧ isValueNode g m = true ∧ (m ∈ g.defs ∨ m ∈ g.caps)))
+    (hsh1 : ∀ m, m ∈ g.allDefs → getInput st1.env m = none) (hhd1 : headOK st1.env)
+    (hrc : st1.rc = st.rc)
     (heff : ∀ m, look st1.temp m = look st.temp m ∨
       (look st1.temp m = none ∧ st.rc m = 1 ∧ m ∈ deps g op)) :
-    Inv g views E σp rest
+    Inv g views σp rest
       (decDeps { st1 with temp := op.outs.zip r ++ st1.temp } (deps g op)) (op.outs.zip r ++ b) := by
   generalize hst' : decDeps { st1 with temp := op.outs.zip r ++ st1.temp } (deps g op) = st'
   have hrc' : ∀ n, st'.rc n = st.rc n - (deps g op).count n := by
     intro n; rw [← hst', decDeps_rc]; simp [hrc]
   have hrcinv : RcInv g rest st' := rcInv_of_rc_eq g op rest st st' inv.rc hrc'
-  have henv' : st'.env = E := by rw [← hst', decDeps_env]; simp [henv, inv.env]
+  have henv' : st'.env = st1.env := by rw [← hst', decDeps_env]
   have heff' : ∀ m, look st'.temp m = look (op.outs.zip r ++ st1.temp) m ∨
       (look st'.temp m = none ∧ st'.rc m = 0) := by
     intro m
@@ -196,7 +211,7 @@ theorem inv_finish (g : Graph P V) (views : Env V) (E : List (Frame V)) (σp : E
     · cases hs : look (op.outs.zip r ++ st.temp) n with
       | none => exact h1
       | some v => exact absurd h2 (hdead (by simp [hs]))
-  refine ⟨henv', hrcinv, ?_, ?_, ?_, ?_⟩
+  refine ⟨by rw [henv']; exact hsh1, by rw [henv']; exact hhd1, hrcinv, ?_, ?_, ?_, ?_⟩
   · intro n hn
     rcases heff' n with h | ⟨h1, _⟩
     · rw [h, look_append] at hn
@@ -221,7 +236,7 @@ theorem inv_finish (g : Graph P V) (views : Env V) (E : List (Frame V)) (σp : E
       cases hz : look (op.outs.zip r) n with
       | some v =>
         exfalso
-        have := outs_not_views g views E σp ctx op hop n (look_zip_key op.outs r n (by simp [hz]))
+        have := outs_not_views g views σp ctx op hop n (look_zip_key op.outs r n (by simp [hz]))
         exact hn this
       | none =>
         simp only []
@@ -232,16 +247,24 @@ theorem inv_finish (g : Graph P V) (views : Env V) (E : List (Frame V)) (σp : E
   · intro n hn
     have ht := htemp n hn
     have hagree := inv.agree n (needed_tail g op rest n hn)
+    have hge : getInput st'.env n = getInput st.env n := by
+      rw [henv']
+      rcases henv1 n with h | ⟨h1, h2, h3, h4⟩
+      · exact h
+      · exfalso
+        refine not_needed_of_rc_zero' g rest st' hrcinv n h3 h4 ?_ hn
+        rw [hrc' n, h1]
+        have : 0 < (deps g op).count n := List.count_pos_iff.mpr h2
+        omega
     unfold opLookup at hagree ⊢
-    rw [ht, henv', List.append_assoc, look_append (op.outs.zip r) (b ++ σp)]
+    rw [ht, hge, List.append_assoc, look_append (op.outs.zip r) (b ++ σp)]
     rw [look_append (op.outs.zip r) st.temp]
     cases hz : look (op.outs.zip r) n with
     | some v =>
-      have := outs_not_views g views E σp ctx op hop n (look_zip_key op.outs r n (by simp [hz]))
+      have := outs_not_views g views σp ctx op hop n (look_zip_key op.outs r n (by simp [hz]))
       simp [this]
     | none =>
       simp only []
-      rw [inv.env] at hagree
       exact hagree
 
 end RtenVerif.ControlFlow
